@@ -303,7 +303,8 @@ def ex_window(ctx, center_ms, w, label="win"):
                             {"exec": "window", "args": {"center_ms": m, "w": 1}}, observed=[prev_dy, dy],
                             tags={"fn": "monotone-decyear", "year_boundary": d.month == 1 and d.day == 1 and d.hour == 0})
             prev_dy = dy
-            if (m - lo) % 7 == 0 and dy < 2200.0:
+            near_centre = abs(m - center_ms) <= 8          # every millisecond next to the boundary itself (the last ms of a year, of a day, ...)
+            if ((m - lo) % 7 == 0 or near_centre) and dy < 2200.0:
                 oki, back, tb = ctx.call(tu.decimal_year_to_utc_datetime, dy)
                 ctx.mon("roundtrip:decimal_year->inverse", 1)
                 if oki and abs(dt_to_us(back) - m * 1000) > 1000:
